@@ -627,13 +627,29 @@ fn wrong_sk_variants(text: &str) -> Vec<PlainSessionKey> {
     }
     outs.push(last);
     outs.retain(|k| *k != raw);
-    outs.into_iter()
+    let mut res: Vec<PlainSessionKey> = outs
+        .into_iter()
         .map(|k| match &base {
             PlainSessionKey::V3_4 { sym_alg, .. } => PlainSessionKey::V3_4 { sym_alg: *sym_alg, key: k.into() },
             PlainSessionKey::V5 { .. } => PlainSessionKey::V5 { key: k.into() },
             PlainSessionKey::V6 { .. } => PlainSessionKey::V6 { key: k.into() },
         })
-        .collect()
+        .collect();
+    // the same octets under another cipher of the same key size: for v3/v4 session keys the cipher id
+    // is part of the session key
+    if let PlainSessionKey::V3_4 { sym_alg, .. } = &base {
+        use SymmetricKeyAlgorithm as S;
+        let same_size: &[S] = match raw.len() {
+            16 => &[S::AES128, S::CAST5, S::Camellia128, S::Blowfish, S::IDEA],
+            24 => &[S::AES192, S::Camellia192, S::TripleDES],
+            32 => &[S::AES256, S::Twofish, S::Camellia256],
+            _ => &[],
+        };
+        for alt in same_size.iter().filter(|a| *a != sym_alg).take(2) {
+            res.push(PlainSessionKey::V3_4 { sym_alg: *alt, key: raw.clone().into() });
+        }
+    }
+    res
 }
 
 /// Input class marker (appended to oracle inputs, ignored by the model): some presented message password
@@ -1612,13 +1628,20 @@ fn long_password_cases(ctx: &mut Ctx) {
 fn mixed_lock_cases(ctx: &mut Ctx) {
     use std::io::Read;
     let data = b"mixed lock state".to_vec();
+    // key flags of the encryption subkey: both encryption flags, "communications" only, "storage" only
+    // (each one makes the subkey a legitimate recipient; the locked / unlocked table is run in full for
+    // the first, two rows of it for the others)
+    for (capn, caps) in [("all", EncryptionCaps::All), ("comms", EncryptionCaps::Communication), ("storage", EncryptionCaps::Storage)] {
     for (ci, (ppw, spw)) in [(Some("primary-pw"), None), (None, Some("subkey-pw")), (Some("p1"), Some("p2")), (None, None)].into_iter().enumerate() {
+        if capn != "all" && ppw.is_some() {
+            continue;
+        }
         for v6 in [false, true] {
             let built = guarded(|| {
                 let mut rng = rand::thread_rng();
                 let version = if v6 { KeyVersion::V6 } else { KeyVersion::V4 };
                 let (pt, st) = if v6 { (KeyType::Ed25519, KeyType::X25519) } else { (KeyType::Ed25519Legacy, KeyType::ECDH(ECCCurve::Curve25519Legacy)) };
-                let sub = SubkeyParamsBuilder::default().version(version).key_type(st).can_encrypt(EncryptionCaps::All).passphrase(spw.map(|s: &str| s.to_string())).build().ok()?;
+                let sub = SubkeyParamsBuilder::default().version(version).key_type(st).can_encrypt(caps).passphrase(spw.map(|s: &str| s.to_string())).build().ok()?;
                 let mut b = SecretKeyParamsBuilder::default();
                 b.version(version).key_type(pt).can_certify(true).can_sign(true).primary_user_id("mixed <m@example.org>".into()).passphrase(ppw.map(|s: &str| s.to_string())).subkey(sub);
                 // iterated S2K keeps the run cheap (the v6 default would be Argon2)
@@ -1670,7 +1693,7 @@ fn mixed_lock_cases(ctx: &mut Ctx) {
                     Some(out)
                 });
                 let got = matches!(&r, Ok(Some(o)) if *o == data);
-                let input = format!("case={ci} v6={v6} primary_locked={} subkey_locked={} key_passwords={pws:?}", ppw.is_some(), spw.is_some());
+                let input = format!("case={ci} v6={v6} subkey_flags={capn} primary_locked={} subkey_locked={} key_passwords={pws:?}", ppw.is_some(), spw.is_some());
                 if must {
                     ctx.oracle("each_recipient_alone", "Message::decrypt_the_ring (components locked differently)", &input, got, "the recipient could not decrypt");
                 } else {
@@ -1679,6 +1702,7 @@ fn mixed_lock_cases(ctx: &mut Ctx) {
                 ctx.stat("mixed_lock");
             }
         }
+    }
     }
 }
 
